@@ -364,11 +364,12 @@ Proof.
   intros Hc Hg (Hd & Hw1 & Hw2 & Hn & Hp & Hpay).
   assert (Hpre : forall b tb, CFrag b tb ->
             CFrag (kt_write_comments 1 (kv_docs v) ++ [ch_tab] ++ lit "@Serializable" ++ nl ++ [ch_tab] ++ lit "@SerialName(" ++
-                   ([ch_dq] ++ kv_wire v ++ [ch_dq]) ++ lit ")" ++ nl ++ b)
+                   [ch_dq] ++ kv_wire v ++ [ch_dq] ++ lit ")" ++ nl ++ b)
                   ([] ++ [] ++ [KP 64; KIdent (lit "Serializable")] ++ [] ++ [] ++ [KP 64; KIdent (lit "SerialName"); KP 40] ++ [KStr] ++ [KP 41] ++ [] ++ tb)).
   { intros b tb Hb. apply cfrag_app; [apply kt_comments_cfrag, Hd|]. apply cfrag_app; [exact L_tab|].
     apply frag_cfrag_app; [exact LF_serializable| |reflexivity]. apply cfrag_app; [exact L_nl|]. apply cfrag_app; [exact L_tab|].
-    apply cfrag_app; [exact L_serialname0|]. apply cfrag_app; [exact (cfrag_quoted (kv_wire v) Hw1 Hw2)|].
+    apply cfrag_app; [exact L_serialname0|]. rewrite (app_assoc (kv_wire v) [ch_dq]).
+    apply (cfrag_app (ch_dq :: kv_wire v ++ [ch_dq]) [KStr]); [exact (cfrag_quoted (kv_wire v) Hw1 Hw2)|].
     apply cfrag_app; [exact L_rparen|]. apply cfrag_app; [exact L_nl|exact Hb]. }
   unfold kt_render_variant. destruct (kv_payload v) as [|ty|inner igs].
   - (* object Name: Parent<G>() *)
@@ -475,12 +476,16 @@ Proof. constructor; [|constructor]. apply param_toks_paramtoks; [constructor|app
 
 Lemma wf_data : mod_wf c10k_is_mod (MKw (lit "data")). Proof. reflexivity. Qed.
 
-Theorem kt_render_decl_gram d : c10_ktg_decl_ok d -> exists td, CFrag (kt_render_decl d) td /\ DeclToks td.
+(* a declaration starts with an annotation or with typealias: never with import / package *)
+Ltac hf := intros x; first [exact eq_refl | split; reflexivity].
+
+Theorem kt_render_decl_gram d : c10_ktg_decl_ok d ->
+  exists td, CFrag (kt_render_decl d) td /\ DeclToks td /\ forall x, hfol (td ++ x).
 Proof.
   destruct d as [docs name | docs name gs ms ts | docs name gs ty | docs name m red | docs name gs es | docs name gs content vs];
     cbn [c10_ktg_decl_ok].
   - (* object *)
-    intros (Hd & Hn). exists (mods_toks [m_serializable] ++ kw "object" :: KIdent name :: odeleg_toks None). split.
+    intros (Hd & Hn). exists (mods_toks [m_serializable] ++ kw "object" :: KIdent name :: odeleg_toks None). split; [|split; [|hf]].
     + change (mods_toks [m_serializable] ++ kw "object" :: KIdent name :: odeleg_toks None)
         with ([] ++ [KP 64; KIdent (lit "Serializable")] ++ [] ++ [kw "object"] ++ [KIdent name] ++ []).
       cbn [kt_render_decl]. apply cfrag_app; [apply kt_comments_cfrag, Hd|].
@@ -493,7 +498,7 @@ Proof.
     destruct ts as [s|].
     + destruct Hts as [Hs1 Hs2].
       exists (mods_toks [m_serializable; MKw (lit "data")] ++ kw "class" :: KIdent name :: gens_toks gs ++ octor_toks (Some ps) ++ odeleg_toks None ++
-              body_toks (body2 (B2Members [tostring_member]))). split.
+              body_toks (body2 (B2Members [tostring_member]))). split; [|split; [|hf]].
       * cbn [kt_render_decl]. fold J.
         replace (lit " (" ++ nl ++ J ++ nl ++ (lit ") {" ++ nl ++ [ch_tab] ++ lit "override fun toString(): String = " ++ debug_str s ++ nl ++ lit "}" ++ nl) ++ nl)
           with ((lit " (" ++ nl) ++ (J ++ nl ++ lit ")") ++ (lit " {" ++ nl ++ [ch_tab] ++ lit "override fun toString(): String = ") ++ debug_str s ++ (nl ++ lit "}" ++ nl) ++ nl).
@@ -511,7 +516,7 @@ Proof.
       * apply decltoks_class; [constructor; [apply wf_serializable|constructor; [exact wf_data|constructor]]|exact Hps|exact I|].
         split; [reflexivity|]. constructor; [exact tostring_decltoks|constructor].
     + exists (mods_toks [m_serializable; MKw (lit "data")] ++ kw "class" :: KIdent name :: gens_toks gs ++ octor_toks (Some ps) ++ odeleg_toks None ++
-              body_toks (body2 B2None)). split.
+              body_toks (body2 B2None)). split; [|split; [|hf]].
       * cbn [kt_render_decl]. fold J.
         replace (lit " (" ++ nl ++ J ++ nl ++ (lit ")" ++ nl) ++ nl) with ((lit " (" ++ nl) ++ (J ++ nl ++ lit ")") ++ (nl ++ nl))
           by (rewrite <- !app_assoc; reflexivity).
@@ -526,7 +531,7 @@ Proof.
       * apply decltoks_class; [constructor; [apply wf_serializable|constructor; [exact wf_data|constructor]]|exact Hps|exact I|exact I].
   - (* typealias *)
     intros (Hd & Hn & Hg & Hty). destruct (kt_show_tytext _ Hty) as (tx & Hf & Hgt).
-    exists (mods_toks [] ++ kw "typealias" :: KIdent name :: gens_toks gs ++ KP 61 :: tx). split.
+    exists (mods_toks [] ++ kw "typealias" :: KIdent name :: gens_toks gs ++ KP 61 :: tx). split; [|split; [|hf]].
     + replace (mods_toks [] ++ kw "typealias" :: KIdent name :: gens_toks gs ++ KP 61 :: tx)
         with ([] ++ [kw "typealias"] ++ (KIdent name :: gens_toks gs ++ ([KP 61] ++ tx ++ []))) by (rewrite app_nil_r; reflexivity).
       cbn [kt_render_decl]. apply cfrag_app; [apply kt_comments_cfrag, Hd|]. apply cfrag_app; [exact L_typealias|].
@@ -539,7 +544,7 @@ Proof.
     assert (Wf : Forall (mod_wf c10k_is_mod) [m_serializable; MAnnot [lit "JvmInline"] None; MKw (lit "value")]).
     { constructor; [apply wf_serializable|]. constructor; [split; [discriminate|exact I]|]. constructor; [reflexivity|constructor]. }
     exists (mods_toks [m_serializable; MAnnot [lit "JvmInline"] None; MKw (lit "value")] ++ kw "class" :: KIdent name :: gens_toks [] ++
-            octor_toks (Some ps) ++ odeleg_toks None ++ body_toks (body2 (if red then B2Members [unwrap_member; tostring_member] else B2None))). split.
+            octor_toks (Some ps) ++ odeleg_toks None ++ body_toks (body2 (if red then B2Members [unwrap_member; tostring_member] else B2None))). split; [|split; [|hf]].
     + cbn [kt_render_decl]. destruct red.
       * replace (lit "(" ++ nl ++ kt_render_member m ++ nl ++
                  (lit ") {" ++ nl ++ [ch_tab] ++ lit "fun unwrap() = value" ++ nl ++ nl ++ [ch_tab] ++ lit "override fun toString(): String = ""***""" ++ nl ++ lit "}" ++ nl) ++ nl)
@@ -571,7 +576,7 @@ Proof.
   - (* enum class *)
     intros (Hd & Hn & Hg & Hes). destruct (entries_text es Hes) as (tes & Hfe & Hte).
     exists (mods_toks [m_serializable; MKw (lit "enum")] ++ kw "class" :: KIdent name :: gens_toks gs ++ octor_toks (Some [string_param]) ++ odeleg_toks None ++
-            body_toks (body2 (B2Entries tes))). split.
+            body_toks (body2 (B2Entries tes))). split; [|split; [|hf]].
     + cbn [kt_render_decl].
       replace (mods_toks [m_serializable; MKw (lit "enum")] ++ kw "class" :: KIdent name :: gens_toks gs ++ octor_toks (Some [string_param]) ++ odeleg_toks None ++
                body_toks (body2 (B2Entries tes)))
@@ -587,7 +592,7 @@ Proof.
   - (* sealed class *)
     intros (Hd & Hn & Hg & Hc & Hvs). destruct (variants_text content gs vs Hc Hg Hvs) as (tvs & Hfv & Htv).
     exists (mods_toks [m_serializable; MKw (lit "sealed")] ++ kw "class" :: KIdent name :: gens_toks gs ++ octor_toks None ++ odeleg_toks None ++
-            body_toks (body2 (B2Members tvs))). split.
+            body_toks (body2 (B2Members tvs))). split; [|split; [|hf]].
     + cbn [kt_render_decl].
       replace (mods_toks [m_serializable; MKw (lit "sealed")] ++ kw "class" :: KIdent name :: gens_toks gs ++ octor_toks None ++ odeleg_toks None ++
                body_toks (body2 (B2Members tvs)))
